@@ -186,6 +186,14 @@ pub struct ClientConnection;
     ensures r matches Ok(k) ==> (k.inner.batch is Some ==> k.inner.batch->Some_0.batch@ == Seq::<Bytes>::empty()),     // [C03.a_duplicate_has_nothing_queued]
 //@end
 
+// after a reconnect the publisher writes to exactly the stream that was just registered, as it was handed over: nothing of the old
+// stream (bytes it had not written yet, which may end in the middle of a frame) is carried over; what is queued in the batch stays
+//@fn client/src/streams/pubsub/publisher.rs :: KeepAliveStream for Publisher :: on_reconnect [props=C12 C03]
+    ensures
+        final(self).stream == stream,                                                                                 // [C12.reconnected_stream_is_the_registered_one_untouched]
+        final(self).same_config(old(self)), final(self).batch == old(self).batch,
+//@end
+
 //@fn client/src/streams/pubsub/publisher.rs :: Publisher :: send_single [props=C03]
     ensures
         final(self).same_config(old(self)), final(self).batch == old(self).batch,
@@ -283,6 +291,12 @@ pub open spec fn first_of_new_frame<D: VMessageDecoder<Item>, Item>(dec: D, d: O
 // buffer request must stay within that size; poll_next allocates only through decode_message / decode_message_batch and is
 // verified with the budget unconstrained (its callees' allocation obligations are discharged in their own proofs)
 pub open spec fn alloc_unbounded() -> bool { alloc_budget() >= usize::MAX }
+//@fn client/src/streams/pubsub/subscriber.rs :: KeepAliveStream for Subscriber :: on_reconnect [props=C12 C03]
+    ensures
+        final(self).stream == stream,                                                                                 // [C12.reconnected_stream_is_the_registered_one_untouched]
+        final(self).decoder == old(self).decoder, final(self).decompression == old(self).decompression, final(self).message_batch == old(self).message_batch,
+//@end
+
 //@fn client/src/streams/pubsub/subscriber.rs :: Subscriber :: decode_message [props=C03 C06]
     requires
         alloc_budget() >= bytes@.len(),                                                                                // [C06.buffer_request_bounded_by_message_size]
